@@ -561,3 +561,37 @@ package gorm
 //@ immutable Statement.DB
 //@   writers gorm.(*DB).Session gorm.(*DB).getInstance gorm.Open gorm.(*DB).* gorm.(*Statement).clone
 //@   tags C16 C15 C06
+
+//@ # ---------- C15: FindInBatches asks for non-empty batches no larger than requested ----------
+//@ # (that the batches together are the rows Find returns is a statement about the database: bounded check)
+//@ func (*DB).FindInBatches
+//@   tags C15
+//@   requires positive-batch-size: batchSize >= 1
+//@   assumes handle-well-formed: db.clone > 0 || (db.Statement != nil && db.Statement.DB == db)
+//@   may-panic fc
+//@   loop 1 invariant batch-size-in-range: 1 <= batchSize && batchSize <= old(batchSize)
+//@   loop 1 invariant handle-is-reusable: tx.clone > 0
+//@   loop 1 invariant only-full-batches-so-far: totalSize > 0 ==> (rowsAffected == batch * batchSize || rowsAffected + batchSize == totalSize)
+//@ site batch-query-size
+//@   match call gorm.(*DB).Limit
+//@   in gorm.(*DB).FindInBatches
+//@   min-sites 1
+//@   assert at-least-one-row-requested: arg1 >= 1 [C15]
+//@   assert no-larger-than-requested: arg1 <= old(batchSize) [C15]
+//@ ghost rowsThisBatch
+//@ event call (*DB).Find
+//@   in gorm.(*DB).FindInBatches
+//@   do rowsThisBatch = result.RowsAffected
+//@ site batch-count-is-stable
+//@   match load DB.RowsAffected
+//@   in gorm.(*DB).FindInBatches
+//@   min-sites 4
+//@   assert reads-the-count-the-query-reported: arg0 == rowsThisBatch [C15]
+//@ site batch-result
+//@   match call gorm.(*DB).Find
+//@   in gorm.(*DB).FindInBatches
+//@   assume-after database-returns-at-most-limit-rows: 0 <= result.RowsAffected && result.RowsAffected <= batchSize
+//@ site batch-callback
+//@   match callparam fc
+//@   in gorm.(*DB).FindInBatches
+//@   assume-after callback-leaves-the-query-handle-alone: local(result).RowsAffected == old(local(result).RowsAffected) && local(result).Error == old(local(result).Error)
